@@ -396,6 +396,11 @@ func RegionsFromGFF(anno gff.GFF, refSeqDegapped string) ([]Region, []int, error
 	tempcds := make([]Region, 0)
 	for _, id := range IDorder {
 		f := IDed[id]
+		// GFF3 gives no meaning to the order in which the rows of one feature are listed (reverse-strand
+		// features are often listed 5' to 3', i.e. in descending coordinates): put them in coordinate order
+		sort.SliceStable(f, func(j, k int) bool {
+			return f[j].Start < f[k].Start
+		})
 		r, err := CDSRegion2fromGFF(f, refSeqDegapped)
 		if err != nil {
 			return []Region{}, []int{}, err
